@@ -1,6 +1,7 @@
 """C17 — Generated code is closed and binds every type by identity (engine E1)."""
 import builtins
 import collections
+import copy
 import dataclasses
 import dis
 import enum
@@ -53,6 +54,10 @@ def units(tier):
     # distinct classes whose names coincide only in part: the same __qualname__ in two modules; different non-ASCII names of equal length
     out += [("twin", k, s, naming) for k in TWINS for s in ("fields", "tuple", "union", "list_of_each", "generic_args")
             for naming in ("other-module", "nonascii", "nonascii-other-module") if not (s == "generic_args" and k in ("typeddict", "strsub"))]
+    # the same string annotation (List["Item"]) written in two modules that each have their own class Item: typing hands out ONE
+    # ForwardRef object for both spellings, yet each holder must get the Item of its own module - in either compile order
+    out += [("fwdtwin", holder, spelling, order) for holder in ("typeddict", "dataclass", "namedtuple")
+            for spelling in ('List["Item"]', 'Optional["Item"]', 'Dict[str, "Item"]') for order in ("a-first", "b-first")]
     # a field whose conversion is overridden: the (un)packer registry never visits the annotation, yet its rendered name is
     # still loaded by the error-reporting lines
     out += [("override", w, o) for w in OVERRIDE_WRAPS for o in OVERRIDES]
@@ -636,7 +641,62 @@ def run_override(unit):
     return res
 
 
+def run_fwdtwin(unit):
+    _, holder, spelling, order = unit
+    res = core.UnitResult()
+    from mashumaro.codecs.basic import BasicDecoder, BasicEncoder
+
+    def V(clause, oc, detail):
+        res.violation(f"{clause}|fwdtwin|{holder}|{spelling}|{order}|{oc}", clause, oc,
+                      dict(unit=unit, facts=dict(kind=holder, shape=spelling, site="fwdtwin")), detail)
+    head = {"typeddict": "class Box(TypedDict):\n", "dataclass": "@dataclass\nclass Box:\n", "namedtuple": "class Box(NamedTuple):\n"}[holder]
+    with space.Ctx() as ctx, _second_module(ctx) as mod2:
+        mod2.__dict__.update({k: v for k, v in ctx.ns.items() if not k.startswith("__")})
+        for ns, tag in ((ctx.ns, 1), (mod2.__dict__, 2)):
+            src = (f"@dataclass\nclass Item:\n    a: int\n    t: int = {tag}\n" + head + f"    items: {spelling}\n")
+            exec(compile(src, f"<{ns['__name__']}>", "exec", dont_inherit=True), ns)
+            ns["Item"].__module__ = ns["Box"].__module__ = ns["__name__"]
+        mods = [ctx.ns, mod2.__dict__]
+        if order == "b-first":
+            mods.reverse()
+        wire_item = {"a": 5}
+        wire = {"List": [wire_item], "Optional": wire_item, "Dict[str,": {"k": wire_item}}[spelling.split("[")[0] if not spelling.startswith("Dict") else "Dict[str,"]
+        doc = {"items": wire} if holder != "namedtuple" else [wire]
+        for ns in mods:
+            res.cases += 1
+            res.transitions += 2
+            Box, Item = ns["Box"], ns["Item"]
+            r = e1.outcome(lambda: BasicDecoder(Box).decode(copy.deepcopy(doc)))
+            if r[0] == "exc":
+                lm = library_made(r[1])
+                V("library-made-error" if lm else "roundtrip-raised", type(r[1]).__name__, f"module {ns['__name__'][-2:]}: {r[1]!r:.200}")
+                continue
+            got = r[1]["items"] if holder == "typeddict" else got_attr(r[1])
+            objs = list(got.values()) if isinstance(got, dict) else (list(got) if isinstance(got, list) else [got])
+            wrong = [o for o in objs if type(o) is not Item]
+            if wrong:
+                V("not-the-annotated-class", "fwdtwin", f"holder of module ..{ns['__name__'][-2:]} ({order}) built {type(wrong[0]).__module__[-2:]}.Item "
+                                                        f"(t={getattr(wrong[0], 't', None)}) instead of the Item its own annotation names")
+                continue
+            back = e1.outcome(lambda: BasicEncoder(Box).encode(r[1]))
+            if back[0] == "exc" or (back[1]["items"] if holder != "namedtuple" else back[1][0]) != {"List": [dict(a=5, t=objs[0].t)], "Optional": dict(a=5, t=objs[0].t),
+                                                                                                 "Dict[str,": {"k": dict(a=5, t=objs[0].t)}}[spelling.split("[")[0] if not spelling.startswith("Dict") else "Dict[str,"]:
+                V("roundtrip-raised" if back[0] == "exc" else "not-the-annotated-class", "fwdtwin-encode", f"{back[1]!r:.200}")
+                continue
+            res.outcomes["ok"] += 1
+            res.nontrivial += 1
+    res.sample(dict(holder=holder, spelling=spelling, order=order))
+    res.states += 1
+    return res
+
+
+def got_attr(x):
+    return x.items if not isinstance(x, tuple) else x[0]
+
+
 def run_unit(unit):
+    if unit[0] == "fwdtwin":
+        return run_fwdtwin(unit)
     return {"grammar": run_grammar, "functional": run_functional, "twin": run_twin, "override": run_override}[unit[0]](unit)
 
 
